@@ -7,6 +7,9 @@ export GOFLAGS=-mod=mod GOPROXY=off GOSUMDB=off GOTOOLCHAIN=local CGO_ENABLED=1
 export PATH=/opt/veriftools/go1.26.8/bin:$PATH
 V="$(dirname "$(readlink -f "$0")")"
 WORK=$V/.work
+# VERIF_REPO lets internal tooling (seeded-change runs) build against a scratch
+# copy of the repository; registered checks always use /repo.
+REPO=${VERIF_REPO:-/repo}
 mkdir -p $WORK/bin
 PKGS="
 github.com/IrineSistiana/mosdns/v5/pkg/upstream/transport
@@ -27,9 +30,8 @@ golang.org/x/sync/singleflight
 "
 OSPKGS=github.com/IrineSistiana/mosdns/v5/plugin/executable/cache
 cd $V/sim
-cp /repo/go.sum $V/sim/go.sum.repo 2>/dev/null || true
 # hash of inputs: repo sources of instrumented packages + harness sources
-H=$( (cd /repo && find . -name '*.go' -not -name '*_test.go' -newer /dev/null -print0 | sort -z | xargs -0 sha256sum; cat go.mod go.sum; cd $V/sim && find . -name '*.go' -print0 | sort -z | xargs -0 sha256sum; cat go.mod; cat $V/build.sh) | sha256sum | cut -c1-16)
+H=$( (echo $REPO; cd $REPO && find . -name '*.go' -not -name '*_test.go' -newer /dev/null -print0 | sort -z | xargs -0 sha256sum; cat go.mod go.sum; cd $V/sim && find . -name '*.go' -print0 | sort -z | xargs -0 sha256sum; cat go.mod; cat $V/build.sh) | sha256sum | cut -c1-16)
 OUT=$WORK/$H
 MODE=${1:-plain}
 BIN=$OUT/h.test
@@ -41,6 +43,12 @@ flock 9
 if [ ! -x "$BIN" ]; then
   if [ ! -x $WORK/bin/instr.$H ]; then
     go build -o $WORK/bin/instr.$H ./cmd/instr >&2
+  fi
+  if [ "$REPO" != /repo ]; then
+    # same module, other checkout: an alternative go.mod whose replace points there
+    sed -e "s|=> /repo\$|=> $REPO|" -e "s|=> ./third_party/x_sync|=> $V/sim/third_party/x_sync|" go.mod > $OUT/go.mod
+    cp go.sum $OUT/go.sum
+    export GOFLAGS="-mod=mod -modfile=$OUT/go.mod"
   fi
   if [ ! -f $OUT/overlay.json ]; then
     $WORK/bin/instr.$H -out $OUT/ov -overlay $OUT/overlay.json -mod $V/sim -inject $V/sim/inject -ospkgs $OSPKGS $PKGS >&2
